@@ -87,6 +87,41 @@ pub fn reshape_targets(r: usize, c: usize) -> Vec<(usize, usize)> {
     v
 }
 
+/// Longest dimension for which every `take` index tuple of length <= 3 is enumerated; beyond it
+/// (long family) every tuple of length <= 2 plus the structured full-length lists of `long_take`.
+pub const TAKE_CUBE_MAX: usize = 24;
+pub const LONG_TAKES: usize = 6;
+
+/// Structured index lists over a long axis of length n (all of length >= n, so that the copy loop
+/// of `take` runs over a long list): identity, reversal, rotation by one, stride 2 with wrap-around
+/// (repeats when n is even), the last index n times, identity followed by reversal (length 2n).
+pub fn long_take(k: usize, n: usize) -> Vec<usize> {
+    match k {
+        0 => (0..n).collect(),
+        1 => (0..n).rev().collect(),
+        2 => (0..n).map(|i| (i + 1) % n).collect(),
+        3 => (0..n).map(|i| (2 * i) % n).collect(),
+        4 => vec![n - 1; n],
+        _ => (0..n).chain((0..n).rev()).collect(),
+    }
+}
+
+/// Draw the index list of a `take` along an axis of length `dim`.
+pub fn choose_take(dim: usize) -> Vec<usize> {
+    if dim <= TAKE_CUBE_MAX {
+        let len = 1 + mc::choose(3);
+        (0..len).map(|_| mc::choose(dim)).collect()
+    } else {
+        let k = mc::choose(2 + LONG_TAKES);
+        if k < 2 {
+            (0..k + 1).map(|_| mc::choose(dim)).collect()
+        } else {
+            mc::count("long_take_full_length");
+            long_take(k - 2, dim)
+        }
+    }
+}
+
 fn structural<T: W>(a: &M, d: &DenseMatrix<T>, fi: usize, fs: FillSet) -> String {
     const OPS: &[&str] = &["construct", "special", "set", "rows_cols", "flatten", "transpose", "slice", "reshape", "take0", "take1"];
     let op = OPS[mc::choose(OPS.len())];
@@ -208,8 +243,8 @@ fn structural<T: W>(a: &M, d: &DenseMatrix<T>, fi: usize, fs: FillSet) -> String
         "take0" | "take1" => {
             let axis: u8 = if op == "take0" { 0 } else { 1 };
             let dim = if axis == 0 { r } else { c };
-            let len = 1 + mc::choose(3);
-            let idx: Vec<usize> = (0..len).map(|_| mc::choose(dim)).collect();
+            let idx: Vec<usize> = choose_take(dim);
+            let len = idx.len();
             let want = if axis == 0 { M::new(len, c, |i, j| a.at(idx[i], j)) } else { M::new(r, len, |i, j| a.at(i, idx[j])) };
             let w = desc::<T>(a, fi, fs, format!(" take({:?}, axis {})", idx, axis));
             expect_m::<T>(&Cx { op: "dense.take", class: sc, what: &w }, mc::guard(|| d.take(&idx, axis)), &want, None);
